@@ -392,9 +392,9 @@ func applyEdit(r *rng, p *Project, c *committed, abs string) string {
 		os.Remove(fp) // never write through a link into the cache
 		must(os.WriteFile(fp, b, 0o644))
 	}
-	kind := []string{"flip", "truncate", "append", "add-file", "add-dir", "delete", "rename", "retarget", "dangle", "file-to-dir", "dir-to-file", "link-to-copy", "none", "edit-below-norec"}[r.intn(14)]
+	kind := []string{"flip", "truncate", "append", "add-file", "add-dir", "delete", "rename", "retarget", "dangle", "file-to-dir", "dir-to-file", "link-to-copy", "none", "edit-below-norec", "append-nul", "truncate-nul"}[r.intn(16)]
 	switch kind {
-	case "flip", "truncate", "append", "delete", "rename", "retarget", "dangle", "file-to-dir", "link-to-copy":
+	case "flip", "truncate", "append", "delete", "rename", "retarget", "dangle", "file-to-dir", "link-to-copy", "append-nul", "truncate-nul":
 		if len(files) == 0 {
 			return ""
 		}
@@ -415,6 +415,13 @@ func applyEdit(r *rng, p *Project, c *committed, abs string) string {
 			rewrite(e, b[:len(b)-1])
 		case "append":
 			rewrite(e, append(b, '!'))
+		case "append-nul":
+			rewrite(e, append(b, 0, 0, 0))
+		case "truncate-nul":
+			if len(b) == 0 || b[len(b)-1] != 0 {
+				return ""
+			}
+			rewrite(e, b[:len(b)-1])
 		case "delete":
 			must(os.Remove(fp))
 		case "rename":
